@@ -42,24 +42,34 @@ Theorem C08_authenticated_undecodable_surfaces :
 Proof. exact authenticated_undecodable_surfaces. Qed.
 Print Assumptions C08_authenticated_undecodable_surfaces.
 
-(* a record typed change_cipher_spec whose body is not 01 produces no output in any state, whatever epoch it
-   claims (no suite authenticates change_cipher_spec records; an undecodable one is discarded, 82cb644) ... *)
-Theorem C08_ccs_undecodable_no_output :
+(* a record typed change_cipher_spec that claims a protected epoch (no suite authenticates such records) produces
+   no output in any state, whatever its body - the valid body 01 included ... *)
+Theorem C08_ccs_claiming_epoch_no_output :
   forall (W : nat) (lease full : bool) (s : rstate) (w : wire),
-    w_ctype w = ct_ccs -> w_clear w = CBad -> snd (recv_fb W lease full s w) = [].
-Proof. exact ccs_undecodable_no_output. Qed.
-Print Assumptions C08_ccs_undecodable_no_output.
+    w_ctype w = ct_ccs -> w_epoch w <> 0 -> snd (recv_fb W lease full s w) = [].
+Proof. exact ccs_claiming_epoch_no_output. Qed.
+Print Assumptions C08_ccs_claiming_epoch_no_output.
 
-(* ... and claiming the current protected epoch of an established connection it leaves the state untouched.
-   (Regression corpus: 14fefd0001<seq>000102; before 82cb644 an unauthenticated sender obtained a fatal
-   decode_error alert and a Read error with it.) *)
-Theorem C08_ccs_claiming_epoch_dropped :
+(* ... and claiming the current or a past epoch of a keyed connection it leaves the state untouched: the remote
+   epoch does not advance, no record number is committed.  (Regression corpus: 14fefd0001<seq>000101 and
+   14fefd0001ffffffffffff000101 on an established DTLS 1.2 connection; before ae10e63 one such record from anybody
+   advanced the remote epoch and committed its number: with 2^48-1 every later genuine record was dropped for
+   good.  14fefd0001<seq>000102: before 82cb644 a fatal decode_error alert and a Read error.) *)
+Theorem C08_ccs_claiming_epoch_inert :
   forall (W : nat) (lease full : bool) (s : rstate) (w : wire),
-    r_closed s = false -> r_init s = true -> w_epoch w <> 0 -> w_epoch w <= r_epoch s -> w_ctype w = ct_ccs ->
-    w_clear w = CBad -> len (r_cid s) = 0 ->
+    r_init s = true -> w_epoch w <> 0 -> w_epoch w <= r_epoch s -> w_ctype w = ct_ccs ->
     recv_fb W lease full s w = (s, []).
-Proof. exact ccs_claiming_epoch_dropped. Qed.
-Print Assumptions C08_ccs_claiming_epoch_dropped.
+Proof. exact ccs_claiming_epoch_inert. Qed.
+Print Assumptions C08_ccs_claiming_epoch_inert.
+
+(* an UNPROTECTED application_data record is refused silently in every state: no delivery, no alert, no error, no
+   replay commit.  (Regression corpus: 17fefd0000<seq>0004deadbeef; before 8aa2dc9 a fatal unexpected_message alert
+   and an error - the handshake in progress ended, an established peer was closed by the protected alert.) *)
+Theorem C08_unprotected_appdata_inert :
+  forall (W : nat) (lease full : bool) (s : rstate) (w : wire) (p : bytes),
+    w_epoch w = 0 -> w_clear w = CApp p -> recv_fb W lease full s w = (s, []).
+Proof. exact unprotected_appdata_inert. Qed.
+Print Assumptions C08_unprotected_appdata_inert.
 
 (* recv_fb with room in the reassembly buffer IS the receive path of Rec/Recv.v (C05/C06) *)
 Theorem C08_recv_fb_is_recv :
@@ -93,6 +103,13 @@ Theorem C08_unprotected_alert_inert_established :
     unprotected_alert w = true -> recv_conn W lease full true s w = (s, []).
 Proof. exact unprotected_alert_inert_established_conn. Qed.
 Print Assumptions C08_unprotected_alert_inert_established.
+
+(* ... and so is an unprotected change_cipher_spec: it only ends the peer's epoch 0 while the handshake runs *)
+Theorem C08_unprotected_ccs_inert_established :
+  forall (W : nat) (lease full : bool) (s : rstate) (w : wire),
+    unprotected_ccs w = true -> recv_conn W lease full true s w = (s, []).
+Proof. exact unprotected_ccs_inert_established_conn. Qed.
+Print Assumptions C08_unprotected_ccs_inert_established.
 
 (* what exception X1 still is, as coded: WHILE THE HANDSHAKE IS RUNNING an unprotected fatal alert with a fresh
    record number closes the endpoint (DTLS 1.2 alerts are unauthenticated until the epoch changes) *)
